@@ -57,6 +57,13 @@ var props = map[string]PropMeta{
 		Real: hubReal, Stub: hubStub,
 		QuickS: 30, ThoroughS: 420, QuickWorkers: 8,
 	},
+	"C02": {
+		Level: "exploration",
+		Rule: "one run = a real hub A, an honest victim device V (real certificate from the library's generator) and an adversary E on the simulated network; inbound: E connects to A as TLS/websocket client with a generated certificate whose SubjectKeyId is {correct SHA-1 of its key, copied from V's certificate onto a fresh key, absent, length 1/19/21/40, random 20 bytes, absent on the leaf but present on a second chain certificate}, arbitrary subject strings, TLS max version 1.0..1.3, with/without client certificate, sub-protocol offers {ship, none, foo, foo+ship, SHIP}, optionally slower than the 10 s header timeout; outbound: A has registered V, a forged mDNS record places V's SKI at E's address, E presents each certificate variant as server; E then tries to get a SHIP message processed / records every binary frame it receives; oracle: a SHIP frame or an application callback naming the presented SKI implies the leaf SKI is the 20-byte SHA-1 of the presented key, TLS >= 1.2, 'ship' negotiated and (outbound) presented == dialled; " +
+			"non-trivial = all runs; distinct = distinct (direction, SKI mode, TLS version, client cert, sub-protocols) tuples",
+		Real: hubReal, Stub: append(append([]string{}, hubStub...), "adversary (real crypto/tls + gorilla client/server driven by the harness with generated certificates)"),
+		QuickS: 30, ThoroughS: 420, QuickWorkers: 8,
+	},
 	"C05": {
 		Level: "exploration",
 		Rule: "one run = two real hubs (optionally a third bystander) with generated certificates on the simulated network and mDNS medium: registration before/after Start, start skew 0..30 s, network latency 0..900 ms (optionally asymmetric), mDNS propagation 0..6 s, the dial back-off drawn per attempt (minimum / maximum / any), then 0-4 disturbances from {DisconnectSKI by either side, unsafe close, reset of all connections, half-open link, mDNS outage} at drawn times, then 300 quiet simulated seconds x seeded interleaving of all hub, ship, ws, http and harness tasks; oracle: exactly one transport connection open at both ends, registered on both sides, completed on both sides, a fresh payload crosses in each direction; " +
